@@ -493,6 +493,10 @@ def stmt_cases(tier, rng):
 
     def add(key, setup, e, t):
         cases.append(Case(key, e, t, setup))
+    # die Größe von <Typ>: the published representation (C18) seen from DDP
+    for tn, t in (("Z", TZ), ("K", TK), ("B", TBY), ("W", TW), ("C", TC), ("T", TT), ("V", TV), ("LZ", TL(TZ)), ("LT", TL(TT)), ("LB", TL(TBY)), ("Paar", TS("Paar")), ("Kiste", TS("Kiste")),
+                  ("Misch", TS("Misch")), ("Winzig", TS("Winzig")), ("LMisch", TL(TS("Misch")))):
+        add("size:%s" % tn, [], {"k": "size", "t": t}, TZ)
     # Kombinationen whose layout has no pointer-sized field, as list elements: built element by element, filled, indexed, copied
     for sn, mk in (("Misch", lambda i: new("Misch", zeichen=lit(C("abcdefghij"[i % 10])), wert=zl(1000 + i), aktiv=lit(W(i % 2 == 0)))),
                    ("Winzig", lambda i: new("Winzig", aktiv=lit(W(i % 3 == 0)), zeichen=lit(C("klmnopqrst"[i % 10]))))):
